@@ -116,7 +116,9 @@ func TestVerifC07(t *testing.T) {
 					open(a, c, pr, wpt, wok)
 					n++
 				}
-				r.EvalN(pn+"|"+c.class(), n)
+				// the same buffers opened again after all of the above: still authentic
+				open(a, c, openProbe{c.nonce, sealed, c.aad, "authentic-reopened"}, c.pt, true)
+				r.EvalN(pn+"|"+c.class(), n+1)
 			})
 
 			// (2) full mutation sets
